@@ -303,10 +303,6 @@ theorem two_writers_resurrect_removed :
 `Tie.tie_cacheUsers` / `tie_kvUsers`: both call `NewConsistentHash()` and then `AddWithWeight(node, conf.Weight)`
 per configured node, in order, and dispatch with `dispatcher.Get(key)`; nothing else touches the ring. -/
 
-/-- the ring of a configuration `[(node, weight), …]` -/
-def userRing (H : Hasher) (conf : List (Node × Int)) : CH :=
-  conf.foldl (fun s p => addWithWeight H s p.1 p.2) (CH.new (minReplicas : Int))
-
 /-- it is a reachable state of the model, so every theorem above applies to the users' dispatch -/
 theorem userRing_is_run (H : Hasher) (conf : List (Node × Int)) :
     userRing H conf = run H (minReplicas : Int) (conf.map fun p => Op.addW p.1 p.2) := by
